@@ -286,7 +286,7 @@ pub fn gen_scenario(seed: u64, mode: &str, idx: usize) -> TestScenario {
 
 pub fn check(mode: &str, tier: &str) -> i32 {
     let seed = verif_seed();
-    let n: usize = std::env::var("VERIF_N").ok().and_then(|x| x.parse().ok()).unwrap_or(if tier == "thorough" { 1200 } else { 48 });
+    let n: usize = std::env::var("VERIF_N").ok().and_then(|x| x.parse().ok()).unwrap_or(if tier == "thorough" { if mode == "C34" { 500 } else { 1200 } } else { 48 });
     let start = std::time::Instant::now();
     println!("procsim {mode} tier={tier} VERIF_SEED={seed} schedules={n}");
     let jobs = simcore::pool::workers();
